@@ -11,4 +11,26 @@ PROPS = {
         "not_decided": ["Schema::is_subtype computes the spec's possible-type / declared-implementation relation (IndexMap lookups; assumed)",
                         "call sites pass the right definitions to these functions"],
     },
+    "C25": {
+        "level": "proof",
+        "verus": ["maxdepth"],
+        "explanation": "Verus proves for every selection-set tree and every (acyclic) fragment map, with no bound on size or depth, that "
+                       "check_selection_set returns Err iff depth_so_far + D >= 3 and Ok(depth_so_far + D) otherwise, where D is the nesting depth of "
+                       "fields/interfaces/possibleTypes/inputFields with named and inline fragments expanded; check_max_depth rejects iff D(operation) >= 3. "
+                       "The memo table is covered by the invariant memo_ok (every entry equals D of that fragment's body).",
+        "not_decided": ["Valid<ExecutableDocument> implies fragment acyclicity (precondition `acyclic`, guaranteed by validation, assumed)",
+                        "HashMap/IndexMap get/insert behave as maps keyed by the name's text (external_body shims)",
+                        "partial_execute / callers actually call check_max_depth"],
+    },
+    "C04": {
+        "level": "proof",
+        "verus": ["limits"],
+        "frame": ["only_lexer_next_makes_limit_errors"],
+        "explanation": "Verus proves the LimitTracker contract (reached <=> current+1 > limit; balanced current; high-water mark) and the token-limit "
+                       "contract of Lexer::next: at most `limit` calls of Cursor::advance, a limit error item iff the limit is exhausted and the lexer is "
+                       "not finished, after which the lexer is finished and returns None forever.",
+        "not_decided": ["global 'recursion-limit error iff nesting depth exceeds r' over the whole grammar (closure combinators)",
+                        "reached-figures copy in apollo_compiler::parser (generic over a parse closure)",
+                        "Cursor::advance itself (external_body: one call = one lexer item, never a limit error; second half checked syntactically)"],
+    },
 }
